@@ -180,7 +180,7 @@ fn run_op(root: &Path, o: &Value) -> (Value, Value) {
     let cbytes = o.get("c").filter(|c| c.is_object()).map(content_bytes);
     // the operation as the trace shows it: contents in canonical form
     let mut shown = o.clone();
-    if let (Some(b), true) = (&cbytes, op != "copy_lim") {
+    if let (Some(b), true) = (&cbytes, !matches!(op, "copy_lim" | "fcopy" | "fcopy_x")) {
         shown["c"] = content(b);
     }
     let nothing = |()| json!([]);
@@ -253,6 +253,40 @@ fn run_op(root: &Path, o: &Value) -> (Value, Value) {
                 assert_eq!(0, libc::setrlimit(libc::RLIMIT_FSIZE, &rl));
             }
             r
+        }
+        "fcopy" | "fcopy_x" => {
+            // File::copy on an OPEN handle of which k bytes were read before (position k, not 0);
+            // fcopy_x: destination on another file system (tmpfs), reported as the value
+            let k = o["c"]["n"].as_u64().unwrap() as usize;
+            let xdir = PathBuf::from(format!("/dev/shm/verif-c14-{}", std::process::id()));
+            let xdst = xdir.join("dst");
+            let dst = if op == "fcopy_x" {
+                let _ = std::fs::remove_dir_all(&xdir);
+                std::fs::create_dir_all(&xdir).unwrap();
+                ustr(&xdst.display().to_string())
+            } else {
+                ustr(&spell(root, &segs_of(&o["q"])))
+            };
+            let r = guarded(|| {
+                let mut f = fs::File::open(&p)?;
+                let mut got = 0;
+                let mut b = [0u8; 1];
+                while got < k {
+                    if f.read(&mut b)? == 0 {
+                        break;
+                    }
+                    got += 1;
+                }
+                f.copy(&dst).map(|_f| ())
+            });
+            let v = if op == "fcopy_x" {
+                let c = std::fs::read(&xdst).ok();
+                let _ = std::fs::remove_dir_all(&xdir);
+                wrap(r, |()| c.map_or(json!([]), |c| content(&c)))
+            } else {
+                wrap(r, nothing)
+            };
+            v
         }
         "create_dir" => wrap(guarded(|| fs::create_dir(&p)), nothing),
         "create_dir_all" => wrap(guarded(|| fs::create_dir_all(&p)), nothing),
@@ -400,6 +434,95 @@ fn fanout_mode(cases: &str, base: &str) {
     }
 }
 
+/// What getdents64 with a 512-byte buffer returns for `dir`: the record sizes of every batch (observer).
+fn getdents_batches(dir: &Path) -> Vec<Vec<usize>> {
+    use std::os::fd::AsRawFd;
+    let f = std::fs::File::open(dir).unwrap();
+    let mut out = Vec::new();
+    let mut buf = [0u64; 64];           // 512 bytes, aligned
+    loop {
+        let n = unsafe { libc::syscall(libc::SYS_getdents64, f.as_raw_fd(), buf.as_mut_ptr(), 512usize) };
+        assert!(n >= 0);
+        if n == 0 {
+            break;
+        }
+        let bytes = unsafe { std::slice::from_raw_parts(buf.as_ptr().cast::<u8>(), n as usize) };
+        let mut off = 0;
+        let mut recs = Vec::new();
+        while off < bytes.len() {
+            let reclen = u16::from_ne_bytes([bytes[off + 16], bytes[off + 17]]) as usize;
+            recs.push(reclen);
+            off += reclen;
+        }
+        out.push(recs);
+    }
+    out
+}
+fn name_for(reclen: usize, idx: usize, salt: usize) -> String {
+    // d_reclen = align8(19 + len + 1)
+    let len = (reclen - 20).min(255);
+    let mut s = format!("{}{:x}", (b'a' + idx as u8) as char, salt % 4096);
+    s.truncate(len);
+    while s.len() < len {
+        s.push('x');
+    }
+    s
+}
+/// Directories engineered so that "space left in the 512-byte window after a batch" x "size of the next
+/// record" sweeps the boundary matrix: case {"r","R","tries"}: fillers whose records (with "." and "..")
+/// sum to 512 - r, and one record of R bytes; the order is the file system's, so several salts are tried
+/// and the batches actually observed are reported (`pairs`).  Every directory is listed by tiny_std and judged.
+fn dirmatrix_mode(cases: &str, base: &str) {
+    let f = std::io::BufReader::new(std::fs::File::open(cases).unwrap());
+    let stdout = std::io::stdout();
+    let mut out = std::io::BufWriter::new(stdout.lock());
+    let mut id = 0usize;
+    for line in f.lines() {
+        let case: Value = serde_json::from_str(&line.unwrap()).unwrap();
+        let r = case["r"].as_u64().unwrap() as usize;
+        let big = case["R"].as_u64().unwrap() as usize;
+        let tries = case["tries"].as_u64().unwrap() as usize;
+        let total = 512 - 48 - r;
+        let m = total.div_ceil(280);
+        let mut sizes: Vec<usize> = (0..m).map(|_| total / m / 8 * 8).collect();
+        let rest = total - sizes.iter().sum::<usize>();
+        sizes[0] += rest;
+        sizes.push(big);
+        for salt in 0..tries {
+            let root = PathBuf::from(base).join(format!("m{id}"));
+            id += 1;
+            let _ = std::fs::remove_dir_all(&root);
+            std::fs::create_dir_all(root.join("d")).unwrap();
+            std::fs::write(root.join("outside"), b"keep").unwrap();
+            let mut expect: Vec<(String, String)> = Vec::new();
+            for (i, sz) in sizes.iter().enumerate() {
+                let name = name_for(*sz, i, salt * 7 + r + big);
+                std::fs::write(root.join("d").join(&name), b"").unwrap();
+                expect.push((name, "f".to_string()));
+            }
+            expect.sort();
+            let batches = getdents_batches(&root.join("d"));
+            let mut pairs = Vec::new();
+            for w in batches.windows(2) {
+                pairs.push(json!([512 - w[0].iter().sum::<usize>(), w[1][0]]));
+            }
+            let hit = pairs.iter().any(|p| p[0] == r && p[1] == big);
+            let dpath = ustr(&root.join("d").display().to_string());
+            let listed = wrap(guarded(|| list_dir(&dpath)), |v| json!(v.iter().map(|(n, k)| json!([n, k])).collect::<Vec<_>>()));
+            let rm = wrap(guarded(|| tiny_std::fs::remove_dir_all(&dpath)), |()| json!([]));
+            let left: Vec<String> = std::fs::read_dir(&root).unwrap().map(|e| e.unwrap().file_name().to_string_lossy().into_owned()).collect();
+            let outside_ok = std::fs::read(root.join("outside")).map(|b| b == b"keep").unwrap_or(false);
+            writeln!(out, "{}", json!({"ev": "fanout", "id": id - 1, "case": case, "children": expect.iter().map(|(n, k)| json!([n, k])).collect::<Vec<_>>(),
+                "listed": listed, "rm": rm, "left": left, "outside_ok": outside_ok, "pairs": pairs, "hit": hit})).unwrap();
+            let _ = std::fs::remove_dir_all(&root);
+            if hit {
+                break;
+            }
+        }
+    }
+    out.flush().unwrap();
+}
+
 /// One copy of a sparse file of `len` bytes (data only in the first and last KiB) over a
 /// destination of `dst_len` bytes; reports lengths and whether head/tail arrived.
 fn bigcopy_mode(base: &str, len: u64, dst_len: u64) {
@@ -446,6 +569,7 @@ fn main() {
     match a[1].as_str() {
         "seq" => seq_mode(&a[2], &a[3], a.get(4).and_then(|s| s.parse().ok()).unwrap_or(0)),
         "fanout" => fanout_mode(&a[2], &a[3]),
+        "dirmatrix" => dirmatrix_mode(&a[2], &a[3]),
         "bigcopy" => bigcopy_mode(&a[2], a[3].parse().unwrap(), a[4].parse().unwrap()),
         _ => panic!("usage"),
     }
